@@ -1765,6 +1765,18 @@ class AclMachine(Machine):
         op = self._gen_op(kind, self.slots[t], st)
         if kind == "scribble_ipnets":
             self._plan = [(t, "shadow_triple", {})]
+        if kind == "ungroup_ports" and self.prop in ("C19", "C17") and s.random() < 0.4:
+            # split, put the very text of a split entry back in, change what the text does not
+            # carry (group members), split again
+            slot_ = self.slots[t]
+            flat_ = slot_["m"].flat()
+            lv_ = leaves(slot_["acl"])
+            cands = [i_ for i_, r_ in enumerate(flat_) if r_.kind == "ace" and needs_split(r_)
+                     and (r_.src.group or r_.dst.group)] if len(lv_) == len(flat_) else []
+            if cands:
+                i_ = s.choice(cands)
+                self._plan = [(t, "insert", {"line": lv_[i_].line, "i": s.randint(0, 50)}),
+                              (t, "set_members", {}), (t, "ungroup_ports", {})]
         if kind in ("ungroup_ports", "set_platform") and self.prop in ("C04", "C17") \
                 and s.random() < 0.6:
             # entries produced by a split are entries like any other for the shadow removal
